@@ -184,6 +184,16 @@ def resolve_place(body, p, depth=0):
     root = trace_local(body, pl_local(p), depth + 1)
     # if root itself is a place, concatenate field paths
     fields = pl_fields(p)
+    # a component of a tuple built in this body (`match (a, b) { .. }`): the value is the operand that was put there
+    if root['k'] == 'agg' and root['rv'].get('ak') == 'tuple' and isinstance(projs[0], dict) and 'f' in projs[0] and str(projs[0]['f']).isdigit() \
+            and int(projs[0]['f']) < len(root['rv']['ops']) and depth < 10:
+        comp = describe_operand(body, root['rv']['ops'][int(projs[0]['f'])], depth + 1)
+        rest = projs[1:]
+        if all(e == '*' for e in rest):
+            return comp
+        if comp['k'] == 'place':
+            return {'k': 'place', 'fields': comp['fields'] + fields[1:], 'root': comp['root'], 'pl': p}
+        return {'k': 'place', 'fields': fields[1:], 'root': comp, 'pl': p}
     if root['k'] == 'place':
         return {'k': 'place', 'fields': root['fields'] + fields, 'root': root['root'], 'pl': p}
     return {'k': 'place', 'fields': fields, 'root': root, 'pl': p}
